@@ -157,6 +157,23 @@ func (x *rx) pipelines(fn *core.Fn, g *cfgq.Graph, scans []cfgq.Point, isScan fu
 		}
 		return true
 	})
+	// a pipeline that is absent altogether: provable only when no function of this package is called from the
+	// region any more (everything that could send it has been expanded in place)
+	if len(dumpS) == 0 || len(pttlS) == 0 {
+		opaque := len(x.calls(rbody, func(call *ast.CallExpr) bool {
+			h := x.c.FnOf(c07.CalleeF(x.info, call))
+			return h != nil && h.Decl.Body != nil && h.Pkg == fn.Pkg
+		}))
+		if opaque == 0 {
+			if len(dumpS) == 0 {
+				x.c.Failf("R4.pipeline", "doFetch/dump-per-key", fn.Decl.Pos(), "no `DUMP <key>` is pipelined to the source: the keys of the page have no payload to restore")
+			}
+			if len(pttlS) == 0 {
+				x.c.Failf("R4.pipeline", "doFetch/pttl-per-key", fn.Decl.Pos(), "no `PTTL <key>` is pipelined to the source (found %d DUMP pipelines): the keys are restored with the wrong or no time-to-live", len(dumpS))
+			}
+			return
+		}
+	}
 	if len(dumpS) != 1 || len(pttlS) != 1 || keyChanSend == nil {
 		x.c.Undecidedf("R4.pipeline", "doFetch", fn.Decl.Pos(), "expected one Send(\"DUMP\"), one Send(\"PTTL\") (in doFetch or one helper) and one send on keyChan; found %d/%d", len(dumpS), len(pttlS))
 		return
